@@ -46,6 +46,7 @@ PARTIAL = [
     "the oracle (termination of the other callers) only, not by the trace tie",
 ]
 ASSUMPTIONS = [
+    "state-invariant oracle (no model run exists for these histories): at every quiescent point named in the harness (after the fault has settled and the detached continuations finished, after the re-issued target, after every later op, after the final all-keys round; runs that keep a continuation suspended (`hold`) and the fault-free counting runs are not dumped) the digest of every key of the real engine (eng::state_digest through the read-only hook qbice::verif::dump_node) is judged (a) in the harness by three model-free consequences of the engine invariant: every node verified in the current epoch stores the from-scratch value for the committed inputs, the backward-edge sets are exactly the inverse of the recorded dependencies, the firewall set of a verified node is the union over its dependencies of ({d} if d is a firewall else tfc(d)) [sigs C05:state-invariant:value|back|tfc], and (b) by the Lean checker of the PROVED invariant (`drv_engine inv` on inv_ops.txt: `inv FAIL <clause> <key>` = oracle failure C05:state-invariant:inv:<clause>); acyclic programs of at most 64 keys; not the family whose executors drop their own reads (its expression nodes are unknown to the checker); an input whose last write was cut may have either value: the stored value of its node decides",
     "acyclic programs: no strongly connected component is in progress (with `is_in_scc` the engine replaces the panic by the SCC value; C06)",
     "a future is dropped only at an await point; every drop of a task's future drops the whole stack of nested `query_for` frames at once "
     "(sub-futures dropped by an executor's own `select!` are not events of the model; see PARTIAL: oracle side and the glue theorem)",
